@@ -209,6 +209,7 @@ func c18OptionsInsideExtension(c *Ctx) {
 }
 
 func runC18(c *Ctx) {
+	c18RawPathHoldsInput(c)
 	c18OptionsInsideExtension(c)
 	rule := "K1-codec-bits"
 	for _, cd := range c18Codecs {
